@@ -72,5 +72,69 @@ cell_harness!(overflow_cell_roundtrip_13, 13);
 cell_harness!(overflow_cell_roundtrip_14, 14);
 cell_harness!(overflow_cell_roundtrip_15, 15);
 
+// ---- overflow::delete ----------------------------------------------------------------------------
+static mut QUERIED: [u32; 4] = [0; 4];
+static mut NQ: usize = 0;
+static mut PAGE_NPNS: u16 = 0;
+static mut PAGE_NBYTES: u16 = 0;
+
+/// StoreReader::query stub: logs the page number asked for and returns a page whose header says
+/// `PAGE_NPNS` page numbers (all = 777) and `PAGE_NBYTES` value bytes.
+fn stub_query(_r: &StoreReader, pn: PageNumber) -> FatPage {
+    unsafe {
+        assert!(NQ < 4);
+        QUERIED[NQ] = pn.0;
+        NQ += 1;
+    }
+    let pool = crate::io::page_pool::verif_kani::kani_page_pool();
+    let mut page = crate::io::page_pool::verif_kani::kani_fat_page(&pool);
+    std::mem::forget(pool);
+    let (np, nb) = unsafe { (PAGE_NPNS, PAGE_NBYTES) };
+    page[0..2].copy_from_slice(&np.to_le_bytes());
+    page[2..4].copy_from_slice(&nb.to_le_bytes());
+    let mut i = 0;
+    while i < np as usize {
+        page[4 + 4 * i..8 + 4 * i].copy_from_slice(&777u32.to_le_bytes());
+        i += 1;
+    }
+    page
+}
+
+/// overflow::delete for a value of 2 pages (both page numbers in the cell; the first page read
+/// carries value bytes, so the scan stops there), appended to a free list that already holds one
+/// symbolic entry: (frame) the existing entry is untouched, (what is freed) exactly the cell's two
+/// pages are appended, (which page is read) the page queried is the cell's first page - never an
+/// older entry of the shared `freed` vector.  Bounded: 2-page value, 1 prior entry.
+#[kani::proof]
+#[kani::unwind(6)]
+#[kani::stub(crate::beatree::allocator::StoreReader::query, stub_query)]
+#[kani::stub(crate::io::page_pool::PagePool::dealloc, crate::io::page_pool::verif_kani::stub_dealloc)]
+fn overflow_delete_frees_exactly_its_pages() {
+    let prior: u32 = kani::any();
+    let p0: u32 = kani::any();
+    let p1: u32 = kani::any();
+    kani::assume(prior != p0 && prior != p1 && p0 != p1);
+    let value_size: usize = BODY_SIZE + 1; // needs exactly 2 pages
+    let cell = encode_cell(value_size, [3u8; 32], &[PageNumber(p0), PageNumber(p1)]);
+    let mut freed: Vec<PageNumber> = Vec::with_capacity(4);
+    freed.push(PageNumber(prior));
+    unsafe {
+        PAGE_NPNS = 0;
+        PAGE_NBYTES = 100;
+    }
+    // `query` is stubbed and ignores its receiver; the reader is never dereferenced
+    let slot: Box<std::mem::MaybeUninit<StoreReader>> = Box::new(std::mem::MaybeUninit::uninit());
+    let reader: &StoreReader = unsafe { &*slot.as_ptr() };
+    delete(&cell, reader, &mut freed);
+    assert!(freed.len() == 3);
+    assert!(freed[0].0 == prior);
+    assert!(freed[1].0 == p0 && freed[2].0 == p1);
+    let (nq, q0) = unsafe { (NQ, QUERIED[0]) };
+    assert!(nq == 1);
+    assert!(q0 == p0, "delete read a page that does not belong to this value");
+    kani::cover!(true, "reachable");
+    std::mem::forget(slot);
+}
+
 #[cfg(test)]
 include!("/verif/.build/playback/overflow.inc");
